@@ -48,7 +48,7 @@ EXT = {"nt": "nt", "nquads": "nq", "turtle": "ttl", "trig": "trig", "xml": "rdf"
 CTYPE = {"nt": "application/n-triples", "nquads": "application/n-quads", "turtle": "text/turtle", "trig": "application/trig", "xml": "application/rdf+xml", "trix": "application/trix", "json-ld": "application/ld+json"}
 MODES = ["data-str", "data-bytes", "source-bytes", "file-bytesio", "source-stringio", "textwrap-raw", "file-raw", "source-raw", "file-text", "source-text", "sis-str", "sis-bytes", "fis-raw", "path-str", "path-pathlib", "loc-file", "loc-http", "loc-http-redirect", "path-guess", "http-guess", "byteswrapper-text", "byteswrapper-str", "data-noformat-publicid", "path-relative-late", "path-relative-chdir", "file-bytesio-nameless", "file-stringio", "file-textwrapper-nameless", "textfile-utf16"]
 BUDGET = 4000000
-STRINGS = ["v", "", "a b", "café", "€ uro", "\U0001F600 smile", 'q"uote', "back\\slash", "line\nbreak", "tab\there", "cr\rhere", "crlf\r\nend", "x' y", "é" * 3, "end\\", "no\ufeffbreak", "\ufeffbom-first"]
+STRINGS = ["v", "", "a b", "café", "€ uro", "\U0001F600 smile", 'q"uote', "back\\slash", "line\nbreak", "tab\there", "cr\rhere", "crlf\r\nend", "x' y", "é" * 3, "end\\", "no\ufeffbreak", "\ufeffbom-first", "C:\\temp\\new\\b\\r\\f\\'q"]
 
 
 def _srt(xs):
@@ -144,6 +144,8 @@ def make_doc(cfg):
     quads = cfg["quads"]
     if fmt in OWN:
         return writers.WRITERS[fmt](quads, random.Random(cfg["style_seed"]))
+    if _own_xml(cfg):
+        return writers.write_rdfxml([q for q in quads if q[3] is None], random.Random(cfg["style_seed"]))
     ds = Dataset()
     for s, p, o, g in quads:
         (ds.graph(T(g)) if g is not None else ds.default_graph).add((T(s), T(p), T(o)))
@@ -153,6 +155,12 @@ def make_doc(cfg):
             src.add(t)
         return src.serialize(format="xml")
     return ds.serialize(format=fmt)
+
+
+def _own_xml(cfg):
+    """RDF/XML: half of the documents come from the independent writer (xml:base per element, an ambient xml:lang that literals
+    inherit or switch off), the other half from rdflib's serialiser"""
+    return cfg["format"] == "xml" and cfg["style_seed"] % 2 == 0 and all(q[0][0] != "b" or q[0][1].isalnum() for q in cfg["quads"])
 
 
 class _NoClose(io.BytesIO):
@@ -402,10 +410,10 @@ def execute(trace, ctx):
 
     try:
         base = parse_with({"data": doc, "format": fmt})
-        if fmt in OWN:
+        if fmt in OWN or _own_xml(cfg):
             # intended graph: default-graph triples land in the Dataset's default graph
             D = set()
-            for s, p, o, g in cfg["quads"]:
+            for s, p, o, g in cfg["quads"] if fmt in OWN else [q for q in cfg["quads"] if q[3] is None]:
                 D.add((_norm(skey(s)), _norm(skey(p)), _norm(skey(o)), ("u", "urn:x-rdflib:default") if g is None else skey(g)))
             ctx.check(iso.isomorphic(D, base), "C05.intended-graph", lambda: f"{fmt}: data=str result differs from the graph the writer was given: intended-only={_srt(D - base)} got-only={_srt(base - D)}\n{doc}")
         ops = list(trace["ops"])
